@@ -19,7 +19,7 @@ RULE = ("seeded programs of the union workload (timers, scope trees, task cancel
         "fresh interpreters under PYTHONHASHSEED in {0, 1, 4242} x USIM_WAITQUEUE in {unset, "
         "SD} x {default, -O}. Non-trivial = the program has at least two activities made "
         "runnable for the same virtual time; distinct = distinct observable trace digest.")
-BUDGET = {"quick": {"cases": 320, "wall_s": 100, "chunk": 2},
+BUDGET = {"quick": {"cases": 320, "wall_s": 240, "chunk": 2},
           "thorough": {"cases": 12000, "wall_s": 1500, "chunk": 4}}
 ASSUMPTIONS = ["the observable trace is the ordered log of (time, activity, event, values) "
                "written by the generated activities; no addresses or ids enter it",
